@@ -203,12 +203,72 @@ def valueOp (op : String) (ws : List String) : String :=
   | "u64", [n] => match n.toNat? with | some v => toString v | none => "bad-op"
   | _, _ => "bad-op"
 
+
+/-! #### C39 sweep: one field of a configuration set to one value, the rest valid -/
+
+/-- scalar syntax of the sweep: `a` (array), `t:…` / `m` (table) and `b` are "some other type" where a number
+    is expected; `u:<n>` is an integer literal above i64::MAX (a TOML parse error: `none`) -/
+def sweepScalar? (s : String) : Option (Option Config.Scalar) :=
+  if s.startsWith "u:" then some none
+  else if s == "a" || s == "m" || s == "b" || s.startsWith "t:" then some (some .other)
+  else if s == "s:" then some (some (.str ""))
+  else (scalar? s).map some
+
+def sweepVal? (s : String) : Option (Option Config.Val) :=
+  if s.startsWith "u:" then some none
+  else if s == "a" then some (some (.scalar .other))
+  else if s == "s:" then some (some (.scalar (.str "")))
+  else (val? s).map some
+
+def sweepKind (field : String) : String :=
+  if field == "csptp.poll_interval" || field == "csptp.response_interval" then "interval"
+  else if field == "csptp.domain" then "domain"
+  else if field.startsWith "sock." || field.startsWith "pps." then "positive"
+  else if field == "synchronization.single-step-panic-threshold" || field == "synchronization.startup-step-panic-threshold" then "thr"
+  else if field == "synchronization.single-step-panic-threshold.forward" || field == "synchronization.startup-step-panic-threshold.backward" then "part"
+  else if field == "synchronization.accumulated-step-panic-threshold" then "accum"
+  else ""
+
+def okErr (b : Bool) : String := if b then "ok" else "err"
+
+def resStr {α : Type} : Config.Res α → String
+  | .ok _ => "ok" | .err _ => "err" | .panic => "panic"
+
+/-- `sweep <field>=<value> [<field>=<value>]`: verdict for fields whose validation is repository code -/
+def sweep (ws : List String) : String :=
+  match ws with
+  | [w] =>
+    match w.splitOn "=" with
+    | field :: rest =>
+      let v := "=".intercalate rest
+      let kind := sweepKind field
+      if kind == "" then "-"
+      else if kind == "thr" then
+        match sweepVal? v with
+        | none => "bad-op"
+        | some none => "err"
+        | some (some val) => resStr (Config.thresholdOf val)
+      else
+        match sweepScalar? v with
+        | none => "bad-op"
+        | some none => "err"
+        | some (some sc) =>
+          if kind == "interval" then okErr (Config.intervalField sc)
+          else if kind == "positive" then okErr (Config.positiveField sc)
+          else if kind == "domain" then okErr (Config.domainField sc)
+          else if kind == "part" then resStr (Config.partOf sc)
+          else resStr (Config.accumOf sc)
+    | [] => "bad-op"
+  | [] => "bad-op"
+  | _ => "-"
+
 def stepLine (_ : Unit) (line : String) : Unit × String :=
   match words line with
   | "deser" :: ws => ((), deser ws)
   | "dgram" :: ws => ((), dgram ws)
   | "thr" :: ws => ((), thr ws)
   | "cfg" :: ws => ((), cfg ws)
+  | "sweep" :: ws => ((), sweep ws)
   | "write" :: ws => ((), frameOp "write" ws)
   | "wstr" :: ws => ((), frameOp "wstr" ws)
   | "read" :: ws => ((), frameOp "read" ws)
